@@ -277,147 +277,269 @@ def _data_start(path: str) -> int:
     return 8 + struct.unpack("<Q", h)[0]
 
 
-def run_case(plan: dict, workdir: str, names: dict) -> tuple[dict, dict]:
-    """Execute one plan on the real library.  Returns (observation for TLC, info for messages)."""
+def _new_obs(case_id: int, c: dict, nmid: int, fail: int, mode: str = "", pre=None) -> dict:
+    n = len(c["sizes"])
+    return {"id": case_id, "c": c, "nmid": nmid, "fail": fail, "out": "returned", "refused": False, "same": [],
+            "loaded": True, "ord": list(range(1, n + 1)), "files": [], "t": [], "index": False, "iname": "",
+            "beq": [], "meta": [], "pre": list(pre or []), "mode": mode}
+
+
+def _new_info(kinds) -> dict:
+    return {"kinds": kinds, "exc": None, "berr": {}, "merr": {}, "lexc": None, "aux": []}
+
+
+def _save(ir, model, model_path: str, c: dict, data_rel: str, workers) -> None:
+    if c["be"] == "raw":
+        kw = dict(external_data=data_rel, size_threshold_bytes=c["thr"], max_workers=workers)
+        if c["lim"]:
+            kw["max_shard_size_bytes"] = c["lim"]
+        if c["al"]:
+            kw["alignment"] = c["al"]
+            kw["align_threshold"] = c["athr"]
+        ir.save(model, model_path, **kw)
+    else:
+        kw = dict(size_threshold_bytes=c["thr"])
+        if c["lim"]:
+            kw["max_shard_size_bytes"] = c["lim"]
+        ir.save_safetensors(model, model_path, **kw)
+
+
+def _record_exc(obs: dict, info: dict, e: BaseException, fail: int, n: int) -> None:
+    obs["out"] = "raised"
+    obs["refused"] = isinstance(e, FileExistsError)
+    info["exc"] = _innermost(e)
+    info["exc_msg"] = str(e)[:200]
+    chain, x = [], e
+    while x is not None and len(chain) < 8:
+        chain.append(x)
+        x = x.__cause__ or x.__context__
+    info["injected"] = any(INJECTED in str(x) for x in chain) or (
+        fail == n + 1 and any(isinstance(x, OSError) for x in chain))
+
+
+def _snapshot(base_dir: str) -> dict:
+    """relative name -> (inode, mtime_ns, size) of every file below base_dir"""
+    snap = {}
+    for root, _dirs, fns in os.walk(base_dir):
+        for fn in fns:
+            p = os.path.join(root, fn)
+            try:
+                st = os.stat(p)
+            except OSError:
+                continue
+            snap[os.path.relpath(p, base_dir).replace(os.sep, "/")] = (st.st_ino, st.st_mtime_ns, st.st_size)
+    return snap
+
+
+def _observe(ir, obs: dict, info: dict, model_path: str, desc: list, be: str, before: dict | None,
+             not_data: set) -> None:
+    """Load the saved model and fill in what is observed: files, per-initializer location/offset/length,
+    byte and metadata equality against the ORIGINAL descriptions.  `before` (re-save): snapshot of the
+    destination directory taken before the save - files that were neither written by this save nor are
+    referenced by the loaded model are left-overs of earlier saves and are not reported."""
+    n = len(desc)
+    base_dir = os.path.dirname(model_path)
+    try:
+        lm = ir.load(model_path)
+        loaded = {}
+        for g in lm.graphs():
+            for nm, v in g.initializers.items():
+                loaded[nm] = v
+    except Exception as e:  # noqa: BLE001
+        obs["loaded"] = False
+        info["lexc"] = _innermost(e)
+        return
+    after = _snapshot(base_dir)
+    referenced = set()
+    for d in desc:
+        lv = loaded.get(d["name"])
+        lt = lv.const_value if lv is not None else None
+        if isinstance(lt, ir.ExternalTensor):
+            referenced.add(str(lt.location).replace(os.sep, "/"))
+    files = []
+    for rel in sorted(after):
+        if rel in not_data or os.path.basename(rel) == SRC_FILE:
+            continue
+        fresh = before is None or rel not in before or before[rel] != after[rel]
+        if rel.endswith(".index.json"):
+            if fresh:
+                obs["index"] = True
+                obs["iname"] = rel
+            continue
+        if fresh or rel in referenced:
+            files.append(rel)
+    starts = {}
+    for rel in files:
+        p = os.path.join(base_dir, rel)
+        st = _data_start(p) if be == "st" else 0
+        starts[rel] = st
+        obs["files"].append({"name": rel, "size": os.path.getsize(p) - st})
+    if be == "st":
+        # the serializer's canonical order: dtype (F4 sorts after U8, the only two storage dtypes used), then name
+        order = sorted(range(n), key=lambda i: (1 if desc[i]["dtype"] == "FLOAT4E2M1" else 0, desc[i]["name"]))
+        for r, i in enumerate(order):
+            obs["ord"][i] = r + 1
+
+    for i in range(n):
+        d = desc[i]
+        lv = loaded.get(d["name"])
+        lt = lv.const_value if lv is not None else None
+        if lt is None:
+            obs["t"].append({"loc": "", "o": 0, "l": 0})
+            obs["beq"].append(False)
+            obs["meta"].append(False)
+            info["merr"][i] = "missing"
+            continue
+        if isinstance(lt, ir.ExternalTensor):
+            loc = str(lt.location).replace(os.sep, "/")
+            o = lt.offset or 0
+            obs["t"].append({"loc": loc, "o": o - starts.get(loc, 0), "l": lt.length if lt.length is not None else -1})
+        else:
+            obs["t"].append({"loc": "", "o": 0, "l": 0})
+        bad = []
+        if lv.name != d["name"] or lt.name != d["name"]:
+            bad.append("name")
+        if lt.dtype.name != d["dtype"]:
+            bad.append("dtype")
+        try:
+            shp = [int(x) for x in lt.shape.numpy()]
+        except Exception:  # noqa: BLE001
+            shp = None
+        if shp != d["shape"]:
+            bad.append("shape")
+        obs["meta"].append(not bad)
+        if bad:
+            info["merr"][i] = "+".join(bad)
+        try:
+            b = lt.tobytes()
+            ok = bytes(b) == d["bytes"]
+            if not ok:
+                info["berr"][i] = "mismatch"
+        except Exception as e:  # noqa: BLE001
+            ok = False
+            info["berr"][i] = _innermost(e)
+        obs["beq"].append(ok)
+        # auxiliary: the numpy view agrees too (not part of the verdict)
+        if ok:
+            try:
+                arr = np.asarray(lt.numpy())
+                if d["bits"] >= 8:
+                    same = arr.tobytes() == d["bytes"]
+                else:
+                    mask = (1 << d["bits"]) - 1
+                    same = pack_bits(arr.reshape(-1).view(np.uint8) & mask, d["bits"]) == d["bytes"]
+                if not same:
+                    info["aux"].append("numpy-mismatch:%s:%s" % (d["kind"], d["dtype"]))
+            except Exception as e:  # noqa: BLE001
+                info["aux"].append("numpy-raised:%s:%s" % (d["dtype"], _innermost(e)))
+
+
+def run_case(plan: dict, workdir: str, names: dict) -> list:
+    """Execute one plan on the real library.  Returns [(observation for TLC, info for messages), ...]:
+    one entry for the save+load of the plan, and one per step of its re-save chain (plan["chain"])."""
     ir = _ir()
     c = plan["c"]
     be = c["be"]
     n = len(c["sizes"])
     casedir = os.path.join(workdir, "c%d" % plan["id"])
     os.makedirs(casedir)
-    obs = {"id": plan["id"], "c": c, "nmid": plan["data_nm"] if be == "raw" else plan["model_nm"],
-           "fail": plan["fail"], "out": "returned", "same": [], "loaded": True,
-           "ord": list(range(1, n + 1)), "files": [], "t": [], "index": False, "iname": "",
-           "beq": [], "meta": []}
-    info = {"kinds": plan["kinds"], "exc": None, "berr": {}, "merr": {}, "lexc": None, "aux": []}
+    obs = _new_obs(plan["id"], c, plan["data_nm"] if be == "raw" else plan["model_nm"], plan["fail"])
+    info = _new_info(plan["kinds"])
+    out = [(obs, info)]
     try:
         bm = build(plan, casedir, names)
         if plan["fail"] == n + 1:
             os.makedirs(bm.model_path)  # the model file cannot be written: onnx.save raises
         try:
-            if be == "raw":
-                kw = dict(external_data=bm.data_rel, size_threshold_bytes=c["thr"], max_workers=plan["workers"])
-                if c["lim"]:
-                    kw["max_shard_size_bytes"] = c["lim"]
-                if c["al"]:
-                    kw["alignment"] = c["al"]
-                    kw["align_threshold"] = c["athr"]
-                ir.save(bm.model, bm.model_path, **kw)
-            else:
-                kw = dict(size_threshold_bytes=c["thr"])
-                if c["lim"]:
-                    kw["max_shard_size_bytes"] = c["lim"]
-                ir.save_safetensors(bm.model, bm.model_path, **kw)
+            _save(ir, bm.model, bm.model_path, c, bm.data_rel, plan["workers"])
         except Exception as e:  # noqa: BLE001
-            obs["out"] = "raised"
-            info["exc"] = _innermost(e)
-            info["exc_msg"] = str(e)[:200]
-            chain, x = [], e
-            while x is not None and len(chain) < 8:
-                chain.append(x)
-                x = x.__cause__ or x.__context__
-            info["injected"] = any(INJECTED in str(x) for x in chain) or (
-                plan["fail"] == n + 1 and any(isinstance(x, OSError) for x in chain))
+            _record_exc(obs, info, e, plan["fail"], n)
         obs["same"] = [bm.values[i].const_value is bm.objs[i] for i in range(n)]
         if obs["out"] == "raised":
-            return obs, info
+            return out
+        model_files = {os.path.relpath(bm.model_path, bm.base_dir).replace(os.sep, "/")}
+        _observe(ir, obs, info, bm.model_path, bm.desc, be, None, model_files)
+        if plan.get("chain") and obs["loaded"]:
+            out.extend(_run_chain(ir, plan, bm, casedir, names))
+        return out
+    finally:
+        shutil.rmtree(casedir, ignore_errors=True)
 
-        # ---- load back -----------------------------------------------------------------------------
+
+def _run_chain(ir, plan: dict, bm: Built, casedir: str, names: dict) -> list:
+    """Re-save scenarios: load what the previous step saved and save it again (in place / under other names in the
+    same directory / into another directory) with another threshold; judged exactly like a first save, bytes
+    compared with the ORIGINAL bytes."""
+    c0 = plan["c"]
+    be = c0["be"]
+    n = len(c0["sizes"])
+    res = []
+    prev_model, prev_data_nm, prev_model_nm = bm.model_path, plan["data_nm"], plan["model_nm"]
+    model_paths = {os.path.abspath(bm.model_path)}
+    for k, stp in enumerate(plan["chain"], start=1):
+        c = dict(c0, thr=stp["thr"], lim=stp["lim"])
+        mode = stp["mode"]
+        if mode == "inplace":
+            model_path, data_nm, model_nm = prev_model, prev_data_nm, prev_model_nm
+        else:
+            model_nm, data_nm = stp["model_nm"], stp["data_nm"]
+            rel = names["st"][model_nm]["given"]
+            top = os.path.join(casedir, "moved%d" % k) if mode == "otherdir" else casedir
+            model_path = os.path.join(top, rel)
+            if mode == "samedir":
+                # same directory as the previous model: keep its directory part, change the file name
+                model_path = os.path.join(os.path.dirname(prev_model), os.path.basename(rel))
+        base_dir = os.path.dirname(model_path)
+        data_rel = names["raw"][data_nm]["given"]
+        os.makedirs(base_dir, exist_ok=True)
+        if be == "raw":
+            os.makedirs(os.path.dirname(os.path.join(base_dir, data_rel)), exist_ok=True)
+        model_paths.add(os.path.abspath(model_path))
+        before = _snapshot(base_dir)
+        not_data = {os.path.relpath(p, base_dir).replace(os.sep, "/") for p in model_paths
+                    if os.path.abspath(p).startswith(os.path.abspath(base_dir) + os.sep)}
+        obs = _new_obs(plan["id"] + k, c, data_nm if be == "raw" else model_nm, 0, mode=mode,
+                       pre=sorted(x for x in before if x not in not_data))
+        info = _new_info(["loaded"] * n)
+        info["step"] = k
+        res.append((obs, info))
         try:
-            lm = ir.load(bm.model_path)
-            loaded = {}
-            for g in lm.graphs():
+            m = ir.load(prev_model)
+            vals = {}
+            for g in m.graphs():
                 for nm, v in g.initializers.items():
-                    loaded[nm] = v
+                    vals[nm] = v
+            held = [vals[d["name"]] for d in bm.desc]
+            objs = [v.const_value for v in held]
         except Exception as e:  # noqa: BLE001
             obs["loaded"] = False
             info["lexc"] = _innermost(e)
-            return obs, info
-
-        # data files next to the model
-        model_abs = os.path.abspath(bm.model_path)
-        files = []
-        for root, _dirs, fns in os.walk(bm.base_dir):
-            for fn in fns:
-                p = os.path.join(root, fn)
-                rel = os.path.relpath(p, bm.base_dir).replace(os.sep, "/")
-                if os.path.abspath(p) == model_abs or os.path.basename(rel) == SRC_FILE:
-                    continue
-                if rel.endswith(".index.json"):
-                    obs["index"] = True
-                    obs["iname"] = rel
-                    continue
-                files.append(rel)
-        files.sort()
-        starts = {}
-        for rel in files:
-            p = os.path.join(bm.base_dir, rel)
-            st = _data_start(p) if be == "st" else 0
-            starts[rel] = st
-            obs["files"].append({"name": rel, "size": os.path.getsize(p) - st})
-        if be == "st":
-            # the serializer's canonical order: dtype (F4 sorts after U8, the only two storage dtypes used), then name
-            order = sorted(range(n), key=lambda i: (1 if bm.desc[i]["dtype"] == "FLOAT4E2M1" else 0, bm.desc[i]["name"]))
-            for r, i in enumerate(order):
-                obs["ord"][i] = r + 1
-
-        for i in range(n):
-            d = bm.desc[i]
-            lv = loaded.get(d["name"])
-            lt = lv.const_value if lv is not None else None
-            if lt is None:
-                obs["t"].append({"loc": "", "o": 0, "l": 0})
-                obs["beq"].append(False)
-                obs["meta"].append(False)
-                info["merr"][i] = "missing"
-                continue
-            if isinstance(lt, ir.ExternalTensor):
-                loc = str(lt.location).replace(os.sep, "/")
-                o = lt.offset or 0
-                obs["t"].append({"loc": loc, "o": o - starts.get(loc, 0), "l": lt.length if lt.length is not None else -1})
-            else:
-                obs["t"].append({"loc": "", "o": 0, "l": 0})
-            # name / dtype / shape
-            bad = []
-            if lv.name != d["name"] or lt.name != d["name"]:
-                bad.append("name")
-            if lt.dtype.name != d["dtype"]:
-                bad.append("dtype")
-            try:
-                shp = [int(x) for x in lt.shape.numpy()]
-            except Exception:  # noqa: BLE001
-                shp = None
-            if shp != d["shape"]:
-                bad.append("shape")
-            obs["meta"].append(not bad)
-            if bad:
-                info["merr"][i] = "+".join(bad)
-            # bytes
-            try:
-                b = lt.tobytes()
-                ok = bytes(b) == d["bytes"]
-                if not ok:
-                    info["berr"][i] = "mismatch"
-            except Exception as e:  # noqa: BLE001
-                ok = False
-                info["berr"][i] = _innermost(e)
-            obs["beq"].append(ok)
-            # auxiliary: the numpy view agrees too (not part of the verdict)
-            if ok:
-                try:
-                    arr = np.asarray(lt.numpy())
-                    if d["bits"] >= 8:
-                        same = arr.tobytes() == d["bytes"]
-                    else:
-                        mask = (1 << d["bits"]) - 1
-                        same = pack_bits(arr.reshape(-1).view(np.uint8) & mask, d["bits"]) == d["bytes"]
-                    if not same:
-                        info["aux"].append("numpy-mismatch:%s:%s" % (d["kind"], d["dtype"]))
-                except Exception as e:  # noqa: BLE001
-                    info["aux"].append("numpy-raised:%s:%s" % (d["dtype"], _innermost(e)))
-        return obs, info
-    finally:
-        shutil.rmtree(casedir, ignore_errors=True)
+            break
+        info["kinds"] = ["loaded-external" if isinstance(t, ir.ExternalTensor) else "loaded-inline" for t in objs]
+        try:
+            _save(ir, m, model_path, c, data_rel, stp["workers"])
+        except Exception as e:  # noqa: BLE001
+            _record_exc(obs, info, e, 0, n)
+        obs["same"] = [held[i].const_value is objs[i] for i in range(n)]
+        if obs["out"] == "raised":
+            if obs["refused"]:
+                continue          # nothing was touched: the chain goes on from the same files
+            break
+        _observe(ir, obs, info, model_path, bm.desc, be, before, not_data)
+        if not obs["loaded"]:
+            break
+        # auxiliary (not part of the verdict): the tensor objects the model holds again after an in-place save
+        if mode == "inplace" and be == "raw":
+            for i, t in enumerate(objs):
+                if isinstance(t, ir.ExternalTensor) and t.valid():
+                    try:
+                        if bytes(t.tobytes()) != bm.desc[i]["bytes"]:
+                            info["aux"].append("restored-external-tensor-still-valid-but-reads-other-bytes-after-inplace-save")
+                            break
+                    except Exception:  # noqa: BLE001
+                        pass
+        prev_model, prev_data_nm, prev_model_nm = model_path, data_nm, model_nm
+    return res
 
 
 def run_batch(task: dict) -> dict:
@@ -429,14 +551,15 @@ def run_batch(task: dict) -> dict:
     err = None
     for plan in task["plans"]:
         try:
-            obs, info = run_case(plan, task["workdir"], names)
+            results = run_case(plan, task["workdir"], names)
         except Exception:  # noqa: BLE001  (the harness itself failed: machinery, not a verdict)
             err = "case %s: %s" % (plan["id"], traceback.format_exc()[-1500:])
             break
-        obs_l.append(obs)
-        if (info["exc"] and not info.get("injected")) or info["berr"] or info["merr"] or info["lexc"] or info["aux"] \
-                or (obs["out"] == "raised") or not all(obs["same"]):
-            info_l[plan["id"]] = info
+        for obs, info in results:
+            obs_l.append(obs)
+            if (info["exc"] and not info.get("injected")) or info["berr"] or info["merr"] or info["lexc"] or info["aux"] \
+                    or (obs["out"] == "raised") or not all(obs["same"]) or obs["mode"]:
+                info_l[obs["id"]] = info
     return {"obs": obs_l, "info": info_l, "error": err}
 
 
